@@ -1975,6 +1975,7 @@ func newC06Case(r *Run, w *c06World) *c06Case {
 type c06Gen struct {
 	r      *Run
 	nA, nO int
+	lastTx int // batch transaction of the staging call generated last
 }
 
 func (g *c06Gen) amods(n int) string {
@@ -2119,7 +2120,8 @@ func (g *c06Gen) stage(fail bool) string {
 			fee = 0
 		}
 	}
-	return fmt.Sprintf("stage %d %d %d %s %s %s %s %s", 1+rng.Intn(5), 1+rng.Intn(7), fee,
+	g.lastTx = 1 + rng.Intn(7)
+	return fmt.Sprintf("stage %d %d %d %s %s %s %s %s", 1+rng.Intn(5), g.lastTx, fee,
 		joinOr2(os_, ","), joinOr2(oms, "/"), joinOr2(as, ","), joinOr2(ams, "/"), joinOr2(mt, "/"))
 }
 
@@ -2131,6 +2133,7 @@ func joinOr2(xs []string, sep string) string {
 }
 
 func (g *c06Gen) history() []string {
+	g.lastTx = 0
 	rng := g.r.Rng
 	g.nA, g.nO = 1+rng.Intn(4), 1+rng.Intn(6)
 	var ops []string
@@ -2238,7 +2241,13 @@ func (g *c06Gen) history() []string {
 		default:
 			rpc := []string{"err0", "err1", "mal", "fin:", "fin:", "finw:", "finw:"}[rng.Intn(7)]
 			if strings.HasSuffix(rpc, ":") {
-				rpc += strconv.Itoa(1 + rng.Intn(7))
+				// half of the finalised transactions are the staged one
+				// (normally signed: finw), the rest another one
+				if g.lastTx > 0 && rng.Intn(2) == 0 {
+					rpc += strconv.Itoa(g.lastTx)
+				} else {
+					rpc += strconv.Itoa(1 + rng.Intn(7))
+				}
 			}
 			rm := 1
 			if rng.Intn(5) == 0 {
